@@ -172,7 +172,7 @@ func direct(kind string, iter int) {
 		}()
 	}
 	wg.Wait()
-	deadline := time.Now().Add(2 * time.Second)
+	deadline := time.Now().Add(120 * time.Second) // generous: the loop ends as soon as everything arrived; a loaded machine must not turn into an alarm
 	for time.Now().Before(deadline) {
 		mu.Lock()
 		n := 0
